@@ -329,7 +329,7 @@ template<unsigned nbits, unsigned es, typename bt, bool sub, bool sup, bool sat>
 // es = 1 requires subnormals and supernormals (static_assert in cfloat)
 #define FLAGS_ALL(X, N, E, BT) X(N,E,BT,0,0,0) X(N,E,BT,0,0,1) X(N,E,BT,0,1,0) X(N,E,BT,0,1,1) X(N,E,BT,1,0,0) X(N,E,BT,1,0,1) X(N,E,BT,1,1,0) X(N,E,BT,1,1,1)
 #define FLAGS_ES1(X, N, E, BT) X(N,E,BT,1,1,0) X(N,E,BT,1,1,1)
-#define SMALL(X, BT) FLAGS_ES1(X,4,1,BT) FLAGS_ALL(X,5,2,BT) FLAGS_ES1(X,6,1,BT) FLAGS_ALL(X,6,2,BT) FLAGS_ALL(X,6,3,BT) FLAGS_ALL(X,7,4,BT) \
+#define SMALL(X, BT) FLAGS_ES1(X,4,1,BT) FLAGS_ALL(X,4,2,BT) FLAGS_ALL(X,5,2,BT) FLAGS_ALL(X,5,3,BT) FLAGS_ES1(X,6,1,BT) FLAGS_ALL(X,6,2,BT) FLAGS_ALL(X,6,3,BT) FLAGS_ALL(X,7,4,BT) \
 	FLAGS_ALL(X,8,2,BT) FLAGS_ALL(X,8,3,BT) FLAGS_ALL(X,8,4,BT) FLAGS_ALL(X,8,5,BT)
 #define LARGE(X) X(16,5,uint16_t,1,0,0) X(16,8,uint16_t,1,0,0) X(32,8,uint32_t,1,0,0) X(64,11,uint32_t,1,0,0) \
 	X(24,5,uint8_t,1,1,0) X(24,5,uint32_t,0,0,1) X(24,5,uint16_t,1,0,0) X(40,8,uint8_t,1,1,1) X(40,8,uint32_t,1,0,0) X(40,8,uint16_t,0,1,0) \
